@@ -145,13 +145,13 @@ Section RunTotal.
       - now apply IHs. }
     pose proof (split_names_sub subs args) as Hsplit.
     destruct (help_index args) as [hi|] eqn:Hhi.
-    - destruct (hi <? opts_and_args subs args) eqn:Hlt.
+    - destruct (hi <=? opts_and_args subs args) eqn:Hlt.
       + pose proof (print_help_no_fuel path (Cmd n d ld h sp pol ds b act af subs) i true) as Hp.
         destruct (print_help parse_float getenv path _ i true) as [text [r|]]; cbn [r_outcome snd] in *; [congruence|].
         unfold on_help. destruct policy as [|[|p]]; discriminate.
       + destruct (skipn (opts_and_args subs args) args) as [|arg rest] eqn:Hsk.
         * (* a help token at or after the split point, yet nothing left after it: impossible *)
-          exfalso. apply Nat.ltb_ge in Hlt.
+          exfalso. apply Nat.leb_gt in Hlt.
           pose proof (help_index_lt _ _ Hhi) as Hl.
           assert (Hlen : length (skipn (opts_and_args subs args) args) = 0) by (now rewrite Hsk).
           rewrite skipn_length in Hlen. lia.
